@@ -133,7 +133,7 @@ Record cells_ok (s : state) : Prop := {
   c_w_sf : task_waker_only s.(sf).(sf_waker);
   c_w_ev : forall e c w, s.(evs) !! e = Some c -> w ∈ c.(regs) -> w = WTask;
   c_tx : s.(txheld) = negb (fin_done s);
-  c_owk : s.(parked) = true -> is_other s.(cur) = true -> s.(owk) <> None;
+  c_owk : s.(owk) <> Some WTask /\ (s.(parked) = true -> is_other s.(cur) = true -> s.(owk) <> None);
 }.
 
 Lemma cells_at_view ph s s' :
